@@ -283,7 +283,9 @@ def expiry_case(net, plan):
         return obs
     lo, hi = stamps[0], stamps[-1]
     for label, when in (('24h-1s', lo + DAY - 1), ('24h', hi + DAY), ('24h+1s', hi + DAY + 1)):
-        lp.advance_to(when)
+        if not lp.advance_to(when, max_steps=6_000_000):
+            obs['stuck'] = label
+            break
         for ann, hname, key in plan:
             for s in range(net.n):
                 if s == ann:
@@ -301,6 +303,9 @@ def expiry_case(net, plan):
 
 def judge_expiry(n, obs):
     out = []
+    if obs.get('stuck'):
+        out.append(({'kind': 'network-never-quiesces', 'n': n},
+                    f"virtual time stopped advancing on the way to {obs['stuck']} after the announcement"))
     ok_ann = {(a['ann'], a['hash']) for a in obs['announce'] if a['status'] == 'done' and a['stored']}
     for p in obs['probes']:
         if (p['ann'], p['hash']) not in ok_ann:
@@ -396,6 +401,12 @@ def work_hit(item, res):
             res.tally('join_did_not_reach_fixed_point')
         if info['complete_tables']:
             res.witness('complete_routing_tables')
+        if info['stuck']:
+            res.violation({'kind': 'join-never-quiesces', 'n': n},
+                          f'virtual time stuck at {info["vtime"]} s after {info["datagrams"]} datagrams: an exchange '
+                          f'started by the join never ends',
+                          {'half': 'join', 'n': n, 'order': order, 'stagger': stagger, 'seed': seed})
+            return
         if not info['all_joined']:
             res.violation({'kind': 'join-failed', 'n': n}, f'not every node joined within {info["vtime"]} s',
                           {'half': 'join', 'n': n, 'order': order, 'stagger': stagger, 'seed': seed})
@@ -553,6 +564,10 @@ RESERVED_IPS = ('10.0.0.1', '192.168.1.1', '127.0.0.1', '0.0.0.0', '224.0.0.1', 
                 '169.254.1.1', '240.0.0.1', '172.16.5.5', '255.255.255.255')
 
 
+# one invalid blob-peer address at a time (a page is accepted or rejected as a whole, so each gets its own reply)
+BAD_VALUES = [(ip, TCP_PORT) for ip in RESERVED_IPS] + [('8.8.4.9', port) for port in (0, 1, 80, 1023)]
+
+
 def garbage_catalogue():
     from vf.udpfab import benc
     return [b'\x00\xff\xfegarbage', b'd', b'', b'i42e', b'l' * 64, b'd1:ai1e', benc({0: 7}), benc({1: b'x'}),
@@ -600,6 +615,9 @@ class Faulty:
 
     def values(self, key, page):
         k, (sid, sip, sudp, stcp) = self.kind, self.searcher
+        if k.startswith('one-bad-value:'):
+            _, ip, port = k.split(':')
+            return [self.compact(ip, int(port), self.fresh_id(b'one'))], 1
         if k == 'reserved-ips':
             return [self.compact(ip, TCP_PORT, self.fresh_id(b'v%d' % i)) for i, ip in enumerate(RESERVED_IPS[:K])], 1
         if k == 'searcher-identity':
@@ -807,6 +825,8 @@ def term_assignments(n, mixed):
         for r in range(1, m + 1):
             for sub in itertools.combinations(range(m), r):
                 out.append(tuple(kind if i in sub else 'honest' for i in range(m)))
+    if n == 3:
+        out += [('one-bad-value:%s:%d' % bv, 'honest') for bv in BAD_VALUES]
     if mixed:
         seen = set(out)
         for combo in itertools.product(('honest',) + FAULT_KINDS, repeat=m):
@@ -828,8 +848,10 @@ def work_term(item, res):
             return
         base = {'half': 'term', 'n': n, 'searcher': searcher, 'seed': seed}
         wedged = set()
+        judged = set()
         for assign in item['assigns']:
             assign = tuple(assign)
+            judged.add(assign)
             case = dict(base, assign=list(assign), choices=[])
             _, obs = fork_call(term_case, net, searcher, assign)
             note_term(res, case, obs)
@@ -849,6 +871,10 @@ def work_term(item, res):
         bound = item.get('dfs_bound', 0)
         for assign in item.get('dfs_assigns', ()):
             assign = tuple(assign)
+            if assign not in judged:
+                _, obs = fork_call(term_case, net, searcher, assign)
+                if any(r['status'] != 'done' and r['status'] != 'raised' for r in obs['lookups']):
+                    wedged.add(assign)
             if assign in wedged:
                 # the default execution already never finishes (every datagram of an endless exchange would be a
                 # choice point): reported above, nothing to add by losing datagrams
@@ -895,12 +921,12 @@ def plan(tier, seed):
     hit_ns = [2, 3, 4, 5, 8] if quick else [2, 3, 4, 5, 8, 9, 12, 24, 40]
     for n in hit_ns:
         orders = join_orders(n)
-        staggers = [0.0, 3.0] if n <= (5 if quick else 12) else [3.0]
+        staggers = [0.0, 3.0] if n <= 5 else [3.0]
         for oi, order in enumerate(orders):
             for stagger in staggers:
                 cases = [(a, h) for a in announcers(n) for h in HASH_NAMES]
                 expiry = (oi == 0 and stagger == 0.0 and n <= 4) if quick else \
-                    (oi in (0, len(orders) - 1) and stagger == staggers[0] and n <= 12)
+                    (oi in ((0, len(orders) - 1) if n <= 5 else (0,)) and stagger == staggers[0] and n <= 12)
                 items.append({'half': 'hit', 'n': n, 'order': order, 'stagger': stagger, 'seed': seed, 'cases': cases,
                               'expiry': expiry, 'selfcheck': oi == 0})
     # deviation DFS (separate items: each re-runs the deterministic join prefix once, then forks per execution)
@@ -913,15 +939,19 @@ def plan(tier, seed):
     for lo in range(0, 100, 10):
         items.append({'half': 'paging', 'counts': counts[lo:lo + 10], 'seed': seed})
     for n in (3, 4, 5, 6):
-        searchers = [n - 1] if quick else [n - 1, 0]
+        searchers = [n - 1] if (quick or n >= 5) else [n - 1, 0]
         for s in searchers:
             assigns = term_assignments(n, mixed=(not quick and n <= 3))
             dfs_b, dfs_a = term_dfs_scope(tier, n, s, assigns)
             chunk = 24
             for lo in range(0, len(assigns), chunk):
-                part = assigns[lo:lo + chunk]
-                items.append({'half': 'term', 'n': n, 'searcher': s, 'seed': seed, 'assigns': part,
-                              'dfs_bound': dfs_b, 'dfs_assigns': [a for a in part if a in dfs_a], 'selfcheck': lo == 0})
+                items.append({'half': 'term', 'n': n, 'searcher': s, 'seed': seed, 'assigns': assigns[lo:lo + chunk],
+                              'selfcheck': lo == 0})
+            dfs_list = [a for a in assigns if a in dfs_a]
+            per = 1 if dfs_b >= 2 else 6
+            for lo in range(0, len(dfs_list), per):
+                items.append({'half': 'term', 'n': n, 'searcher': s, 'seed': seed, 'assigns': [],
+                              'dfs_bound': dfs_b, 'dfs_assigns': dfs_list[lo:lo + per]})
     return items
 
 
@@ -944,15 +974,20 @@ def dfs_scope(tier):
             for ann in (0, 3):
                 add(4, order, 0.0, ann, 'far', 1, 'full', parts=2)
     else:
-        for n in (2, 3, 4):
-            for order in join_orders(n):
-                for ann in range(n):
-                    for h in (HASH_NAMES if n < 4 else ('far',)):
-                        add(n, order, 0.0, ann, h, 1, 'full', parts=1 if n < 4 else 2)
         for order in join_orders(2):
             for ann in range(2):
-                add(2, order, 0.0, ann, 'far', 2, 'full', parts=4)
-        for ann in range(3):
+                for h in HASH_NAMES:
+                    add(2, order, 0.0, ann, h, 1, 'full')
+        for order in join_orders(3):
+            for ann in range(3):
+                for h in (HASH_NAMES if order == [0, 1, 2] else ('far',)):
+                    add(3, order, 0.0, ann, h, 1, 'full')
+        for order in join_orders(4):
+            for ann in (range(4) if order == [0, 1, 2, 3] else (3,)):
+                add(4, order, 0.0, ann, 'far', 1, 'full', parts=2)
+        for order in join_orders(2):
+            add(2, order, 0.0, 1, 'far', 2, 'full', parts=4)
+        for ann in (0, 2):
             add(3, [0, 1, 2], 0.0, ann, 'far', 2, 'quiescent', parts=8)
         add(4, [0, 1, 2, 3], 0.0, 3, 'far', 2, 'quiescent', parts=32)
         for n in (5, 8, 9):
@@ -963,19 +998,32 @@ def dfs_scope(tier):
 
 def term_dfs_scope(tier, n, searcher, assigns):
     """Loss / over-timeout delay as deviations: which assignments, which bound."""
-    single = [a for a in assigns if len(set(a) - {'honest'}) <= 1]
+    single = [a for a in assigns if len(set(a) - {'honest'}) <= 1 and not any(k.startswith('one-bad-value') for k in a)]
     if tier == 'quick':
         if n == 3:
             return 1, set(single)
         return 0, set()
+    light = {'honest', 'silent', 'garbage', 'fresh-contacts', 'duplicate-peers'}
     if n == 3:
         if searcher == n - 1:
-            light = {'honest', 'silent', 'garbage', 'fresh-contacts', 'duplicate-peers'}
-            return 2, set(a for a in single if set(a) <= light)
+            return 2, set(a for a in single if set(a) <= {'honest', 'silent', 'garbage'})
         return 1, set(single)
     if n == 4 and searcher == n - 1:
-        return 1, set(single)
+        return 1, set(a for a in single if set(a) <= light)
     return 0, set()
+
+
+def estimate(it):
+    """Rough relative cost of a work item (only used to order the pool's queue)."""
+    n = it.get('n', 2)
+    if it['half'] == 'paging':
+        return 1
+    if it['half'] == 'term':
+        return len(it['assigns']) * 0.1 * n / 3 + len(it.get('dfs_assigns', ())) * (25 if it.get('dfs_bound', 0) >= 2 else 1.5)
+    d = it.get('dfs')
+    if d:
+        return (60 if d['bound'] >= 2 else 3 * n) / d['parts'] * (1 if d['alphabet'] == 'full' else 0.5) + 0.1 * n
+    return 0.12 * n + 0.01 * n * len(it.get('cases', ())) + (1.1 * n if it.get('expiry') else 0)
 
 
 def run(ctx):
@@ -983,7 +1031,7 @@ def run(ctx):
     kademlia_ref.selftest()
     items = plan(ctx.tier, ctx.seed)
     # longest items first so the pool drains evenly
-    items.sort(key=lambda it: -(it['n'] if 'n' in it else 2) * (10 if it.get('dfs') or it.get('expiry') else 1))
+    items.sort(key=lambda it: -estimate(it))
     ctx.pmap(dispatch, items)
     quick = ctx.quick
     ctx.meta.update(
@@ -1038,7 +1086,8 @@ def replay(data):
             fixed = info['fixed'] and info['all_joined']
             log.append(f'join: {info}')
             if half == 'join':
-                viol = [] if info['all_joined'] else [({'kind': 'join-failed', 'n': data['n']}, 'not every node joined')]
+                viol = [({'kind': 'join-never-quiesces', 'n': data['n']}, 'virtual time does not advance')] if info['stuck'] \
+                    else [] if info['all_joined'] else [({'kind': 'join-failed', 'n': data['n']}, 'not every node joined')]
             elif half == 'expiry':
                 obs = expiry_case(net, expiry_plan(data['n'], None))
                 viol = judge_expiry(data['n'], obs)
